@@ -10,7 +10,7 @@ import z3
 
 from pyvc import specz3
 from pyvc.sym import (I, B, A, A2, iv, add, sub, lit, fresh, fresh_seq, Seq, Tup, Mat, Row, Obj, FloatV, NONE, NoneV, const_str,
-                      const_list, seq_eq, const_mat, MaskV, ZipSeq, MaybeFloat)
+                      const_list, seq_eq, const_mat, MaskV, ZipSeq, MaybeFloat, PairSeq)
 
 Z3_TIMEOUT_MS = int(os.environ.get("PYVC_Z3_TIMEOUT_MS", "20000"))
 CVC5_TIMEOUT_S = int(os.environ.get("PYVC_CVC5_TIMEOUT_S", "40"))
@@ -106,12 +106,15 @@ class Exec:
         self.quiet = 0
         self.tag = ("[" + ",".join(f"{k}={v}" for k, v in self.split.items()) + "]") if self.split else ""
         self.z3_timeout_ms, self.cvc5_timeout_s, self.retries = Z3_TIMEOUT_MS, CVC5_TIMEOUT_S, 2
+        self.failed_names = set()
         self.extra_unfold = {}
         self.ghost_names = set()
         for lem in contract.get("lemmas", []):
             self.axioms += registry.lemma_axioms(lem)
         loops = sorted([x for x in ast.walk(fn) if isinstance(x, (ast.For, ast.While))], key=lambda x: (x.lineno, x.col_offset))
         self.loop_ids = {id(x): k + 1 for k, x in enumerate(loops)}     # source order; ghost loops are keyed "<anchor>#k"
+        raises_ = sorted([x for x in ast.walk(fn) if isinstance(x, ast.Raise)], key=lambda x: (x.lineno, x.col_offset))
+        self.raise_ids = {id(x): k + 1 for k, x in enumerate(raises_)}
         self._ghost_cache = {}
         if contract.get("n_loops") is not None and contract["n_loops"] != len(loops):
             self.binding_error = f"function has {len(loops)} loops, the sidecar was written for {contract['n_loops']} (sidecar no longer binds)"
@@ -141,6 +144,12 @@ class Exec:
         asserts = self._query(st, [z3.Not(goal)])
         t = time.time()
         r, s = None, None
+        if full in self.failed_names:
+            # the same named obligation already failed on another path of this unit: it stays failed, no need to burn the budgets again
+            self.results.append(Result(full, "failed", "skipped", 0.0, line, "same obligation already failed on another path"))
+            return
+        if len(self.failed_names) >= 1 and self.retries:     # after the first failure: short budgets (the unit is red anyway)
+            self.z3_timeout_ms, self.cvc5_timeout_s, self.retries = min(self.z3_timeout_ms, 6000), 0, 1
         # E-matching is order-sensitive: an obligation counts as discharged when ANY attempt answers unsat (sound), so a
         # verdict does not flip with the scheduling of fresh names; a second and third seed are tried before cvc5.
         for attempt in range(1 + self.retries):
@@ -166,6 +175,7 @@ class Exec:
             except Exception:
                 pass
             self.results.append(Result(full, "refuted", "z3", dt, line, detail))
+            self.failed_names.add(full)
             return
         # z3 unknown: cvc5 on the same assertions (printed from a solver that has not run: check() rewrites them in place)
         reason = s.reason_unknown()
@@ -181,6 +191,7 @@ class Exec:
         else:
             self.results.append(Result(full, "failed", "z3+cvc5", dt + dt2, line,
                                        f"z3: unknown ({reason}); cvc5: {r2} {out[:200]}"))
+            self.failed_names.add(full)
 
     # ------------------------------------------------------------------ exceptions inside expressions
     def may_raise(self, st, exc, cond, label, line=None):
@@ -563,6 +574,14 @@ class Exec:
             r_ = toint(self.ev(sl, st))
             self.index_ok(st, r_, base.rows, line)
             return base.row(r_)
+        if isinstance(base, PairSeq):
+            if isinstance(sl, ast.Slice):
+                if sl.lower is None and sl.upper is None and sl.step is not None and lit(toint(self.ev(sl.step, st))) == -1:
+                    return PairSeq(self.reverse(base.a, st), self.reverse(base.b, st))
+                raise Unsupported("slice of a list of pairs")
+            j = toint(self.ev(sl, st))
+            self.may_raise(st, "IndexError", z3.Or(j < 0, j >= base.n), f"index:{self.ordinal('idx')}", line)
+            return base.at(j)
         if z3.is_expr(base) and z3.is_array(base):        # raw array value (lemma language)
             return base[toint(self.ev(sl, st))]
         if not isinstance(base, Seq):
@@ -770,6 +789,8 @@ class Exec:
             hint = self.c.get("types", {}).get(tgt.id)
             if hint == "list_char" and isinstance(v, Seq) and v.kind == "list" and lit(v.n) == 0:
                 v = Seq("list", "char", v.arr, v.n, v.start, v.delta)      # an empty list that will hold single characters
+            if hint == "list_pair" and isinstance(v, Seq) and v.kind == "list" and lit(v.n) == 0:
+                v = PairSeq(const_list([]), const_list([]))                  # an empty list that will hold 2-tuples of ints
             st.env[tgt.id] = v
             return
         if isinstance(tgt, (ast.Tuple, ast.List)):
@@ -857,7 +878,7 @@ class Exec:
             exc = s.exc.id
         if exc is None:
             raise Unsupported("raise of a computed exception")
-        k = self.ordinal("raise-site")
+        k = self.raise_ids.get(id(s), 0)        # raise statements are numbered in source order
         outs = []
         for g in self.ghost(f"before_raise{k}", st):
             outs.append(Outcome("raise", g, exc=exc, line=s.lineno))
@@ -925,6 +946,11 @@ class Exec:
         return names
 
     def havoc_value(self, name, old):
+        if isinstance(old, PairSeq):
+            a = self.havoc_value(name + "_a", old.a)
+            b = self.havoc_value(name + "_b", old.b)
+            b.n = a.n
+            return PairSeq(a, b)
         if isinstance(old, Seq):
             return Seq(old.kind, old.elem, fresh(name, A), fresh(name + "_n"), iv(0), 0, old.dtype)
         if isinstance(old, Mat):
@@ -940,7 +966,7 @@ class Exec:
             if nme in st.env:
                 v = self.havoc_value(nme, st.env[nme])
                 st.env[nme] = v
-                if isinstance(v, Seq):
+                if isinstance(v, (Seq, PairSeq)):
                     st.assume(v.n >= 0)
 
     def loop_spec(self, ordinal, node):
@@ -1019,6 +1045,8 @@ class Exec:
             return cnt_, lambda t, i, tgt: self.assign(tgt, f(i), t, None)
         if isinstance(it, ast.Call) and isinstance(it.func, ast.Name) and it.func.id == "enumerate":
             src = self.ev(it.args[0], st)
+            if isinstance(src, PairSeq):
+                return src.n, lambda t, i, tgt: self.assign(tgt, Tup([i, src.at(i)]), t, None)
             if not isinstance(src, (Seq,)):
                 raise Unsupported("enumerate over a non-sequence")
             return src.n, lambda t, i, tgt: self.assign(tgt, Tup([i, self.element(src, i)]), t, None)
